@@ -914,7 +914,7 @@ func runModelHistory(id int, seed int64, mix string, n int, script []Cmd) ModelH
 	renamed := false
 	sigs := instanceSigs(d.store())
 	for i := 0; i <= n; i++ {
-		wits = append(wits, computeWitness(d.store(), renamed))
+		wits = append(wits, computeWitness(d.store(), histFacts{renamed: renamed}))
 		b, err := d.snapshot()
 		if err != nil {
 			h.Failures = append(h.Failures, Failure{Cut: i, Stage: "snapshot", Signature: map[string]any{"kind": "snapshot-failed"}, Detail: err.Error()})
@@ -935,7 +935,7 @@ func runModelHistory(id int, seed int64, mix string, n int, script []Cmd) ModelH
 		h.Results = append(h.Results, modelResult(out))
 		rawResults = append(rawResults, canonResult(out))
 		after := instanceSigs(d.store())
-		renamed = renamed || reRegistered(sigs, after)
+		renamed = renamed || reRegistered(sigs, after) || txnRenames(data)
 		sigs = after
 	}
 	h.Final = modelDump(d.store())
